@@ -65,6 +65,10 @@ func checkC05(c *Ctx) {
 				// more than ten productions: production numbers of one and of two digits compete
 				o.MaxNT, o.MaxAlts, o.PDup = 5, 4, 0.2
 			}
+			if i%5 == 2 {
+				// error alternatives compete like any others
+				o.ErrorAlts = true
+			}
 			gs = append(gs, genSynGrammar(rng, o))
 		}
 		// every third grammar with compressed tables: the resolved entries travel through their
